@@ -73,7 +73,7 @@ type usess struct {
 
 func NewUp4Gen(w *World, seed int64, peers, maxSess int, wide bool) *Up4Gen {
 	g := &Up4Gen{W: w, R: rand.New(rand.NewSource(seed)), Peers: peers, MaxSess: maxSess, Stats: map[string]int{}, assoc: map[string]bool{}, Wide: wide}
-	g.ueCtr = 0x0AFA0000 + uint32(g.R.Intn(1<<8))<<8 // inside 10.250.0.0/16
+	g.ueCtr = 0x0AF90000 + uint32(g.R.Intn(1<<8))<<8 // 10.249.x.y: never an address the agent allocates from its pool (10.250.0.0/16)
 	g.teidCtr = uint32(g.R.Intn(1<<30)) | 1
 	g.cpCtr = g.R.Uint64() | 1
 
@@ -152,6 +152,14 @@ func (g *Up4Gen) mkFlow() *pfcpx.Flow {
 	}
 }
 
+// FreshGnbs replaces the pool of gNB addresses: sessions established from now on do not share tunnel peers with
+// the earlier ones (a FAR update then leaves the old peer without users).
+func (g *Up4Gen) FreshGnbs() {
+	for i := range g.gnbs {
+		g.gnbs[i] = 0xC0A80000 + uint32(g.R.Intn(1<<16))
+	}
+}
+
 // MarkAssoc tells the generator that the peer is associated already.
 func (g *Up4Gen) MarkAssoc(peer string) { g.assoc[peer] = true }
 
@@ -159,7 +167,7 @@ func (g *Up4Gen) peerName(i int) string { return fmt.Sprintf("p%d", g.PeerBase+i
 
 // Disjoint gives the generator its own block of UE addresses and TEIDs (generators running side by side).
 func (g *Up4Gen) Disjoint(k int) {
-	g.ueCtr = 0x0AFA0000 + uint32(k)<<12
+	g.ueCtr = 0x0AF90000 + uint32(k)<<12
 	g.teidCtr = uint32(k+1) << 26
 	g.cpCtr = uint64(k+1) << 40
 }
